@@ -249,6 +249,13 @@ func (n *Node) create(restart bool) error {
 	return nil
 }
 
+// R returns the node's current Raft object (safe against a concurrent restart).
+func (n *Node) R() *raft.Raft {
+	n.mu.Lock()
+	defer n.mu.Unlock()
+	return n.Raft
+}
+
 // Bootstrap bootstraps the node with the given voters (id == address).
 func (n *Node) Bootstrap(voters []string) error {
 	cfg := map[string]string{}
@@ -531,7 +538,7 @@ func (c *Cluster) Leader() string {
 		if !n.IsUp() {
 			continue
 		}
-		st := n.Raft.Status()
+		st := n.R().Status()
 		if st.State == raft.Leader && st.Term >= bt {
 			best, bt = id, st.Term
 		}
@@ -557,7 +564,7 @@ func (c *Cluster) WaitLeaderAmong(ids []string, d time.Duration) string {
 	for time.Now().Before(dl) {
 		for _, id := range ids {
 			n := c.Node(id)
-			if n != nil && n.IsUp() && n.Raft.Status().State == raft.Leader {
+			if n != nil && n.IsUp() && n.R().Status().State == raft.Leader {
 				return id
 			}
 		}
